@@ -351,7 +351,7 @@ func TestC09_RandomPrograms(t *testing.T) {
 	c := harness.New(t, "C09", "random-programs",
 		"programs from an untyped generator: any expression kind in any position (operators on any operand types, dot/index/call on any receiver, every built-in name with 0..3 arguments of any kind, array/object literals with failing entries), every statement kind in any position (control directives outside loops, @use/@reserve/@insert/@slot/@component in string mode), bounded loops, @each over any value; data maps with every kind (boundary integers, empty/non-ASCII/invalid UTF-8 strings, nil pointers at every pointer position, values of unsupported kinds nested at any depth, loop as a key). Oracle: output or error, no panic, error line within the template. Non-trivial: evaluation was reached (parse succeeded) and the program has >= 1 operator/call/index. Distinct by hash of source + data.")
 	defer c.Finish()
-	runRapid(t, c, 40000, 150000, func(rt *rapid.T) {
+	runRapid(t, c, 40000, 450000, func(rt *rapid.T) {
 		nData := rapid.IntRange(0, 5).Draw(rt, "nData")
 		names := rapid.SliceOfNDistinct(rapid.SampledFrom([]string{"a", "b", "name", "items", "user", "x", "n", "loop"}), nData, nData, rapid.ID[string]).Draw(rt, "dataNames")
 		var data *spec.Data
